@@ -65,6 +65,7 @@ func Main() {
 		if len(os.Args) < 3 {
 			usage()
 		}
+		gen.TrimGenCache(1 << 62) // never trims: registers this process as a user of the shared build cache
 		os.Exit(runReplay(os.Args[2]))
 	default:
 		usage()
